@@ -78,9 +78,13 @@ impl<T, A: Allocator> Drop for RawIntoIter<T, A> {
          edits=[(RAW, "        alloc.deallocate(ptr, layout);\n    }\n\n    /// Returns a pointer to the allocated memory",
                  "        alloc.deallocate(ptr, Layout::from_size_align_unchecked(layout.size() - 1, layout.align()));\n    }\n\n    /// Returns a pointer to the allocated memory")]),
     # ---- C06
-    dict(name="c06-insert_in_slot-always-decrements", checks=["C06"], desc="record_item_insert_at always consumes growth_left",
+    # (record_item_insert_at *always* decrementing with saturating_sub under-counts growth_left, which is safe and
+    #  invisible to every listed property: tried, not detected, not a property violation - dropped.)
+    dict(name="c06-insert_in_slot-never-decrements", checks=["C06"], desc="record_item_insert_at never consumes growth_left",
          edits=[(RAW, "        self.growth_left -= usize::from(old_ctrl.special_is_empty());\n        self.set_ctrl_hash(index, hash);",
-                 "        self.growth_left = self.growth_left.saturating_sub(1);\n        let _ = old_ctrl;\n        self.set_ctrl_hash(index, hash);")]),
+                 "        let _ = old_ctrl;\n        self.set_ctrl_hash(index, hash);")]),
+    dict(name="c06-vacant-reinsert-wrong-slot", checks=["C06"], desc="OccupiedEntry::remove hands out the slot after the freed one",
+         edits=[(RAW, "            InsertSlot {\n                index: self.bucket_index(&item),\n            },", "            InsertSlot {\n                index: (self.bucket_index(&item) + 1) & self.table.bucket_mask,\n            },")]),
     dict(name="c06-iter_hash-wrong-group", checks=["C06"], desc="RawIterHashInner loads the group after the probe position",
          edits=[(RAW, "                let index = self.probe_seq.pos;\n                debug_assert!(index < self.bucket_mask + 1 + Group::WIDTH);",
                  "                let index = (self.probe_seq.pos + Group::WIDTH) & self.bucket_mask;\n                debug_assert!(index < self.bucket_mask + 1 + Group::WIDTH);")]),
@@ -118,4 +122,29 @@ impl<T, A: Allocator> Drop for RawIntoIter<T, A> {
     dict(name="c05-no-fix_insert_slot", checks=["C05"], desc="small-table insert fix-up removed (needs broken hashing to matter? no: any small table)",
          edits=[(RAW, "        if unlikely(self.is_bucket_full(index)) {\n            debug_assert!(self.bucket_mask < Group::WIDTH);",
                  "        if false && unlikely(self.is_bucket_full(index)) {\n            debug_assert!(self.bucket_mask < Group::WIDTH);")]),
+    # ---- C07
+    dict(name="c07-union-wrong-difference", checks=["C07"], desc="union chains larger.difference(smaller)",
+         edits=[("src/set.rs", "            iter: larger.iter().chain(smaller.difference(larger)),", "            iter: larger.iter().chain(larger.difference(smaller)),")]),
+    dict(name="c07-sub_assign-inverted-branch", checks=["C07"], desc="-= retain branch keeps the wrong elements",
+         edits=[("src/set.rs", "            self.retain(|item| !rhs.contains(item));", "            self.retain(|item| rhs.contains(item));")]),
+    dict(name="c07-difference-size_hint", checks=["C07"], desc="Difference::size_hint lower bound = upper",
+         edits=[("src/set.rs", "        (lower.saturating_sub(self.other.len()), upper)", "        (lower, upper)")]),
+    dict(name="c07-intersection-le-to-lt-and-self", checks=["C07"], desc="intersection iterates the larger set against itself when sizes are equal",
+         edits=[("src/set.rs", """        let (smaller, larger) = if self.len() <= other.len() {
+            (self, other)
+        } else {
+            (other, self)
+        };
+        Intersection {""", """        let (smaller, larger) = if self.len() < other.len() {
+            (self, other)
+        } else if self.len() == other.len() {
+            (self, self)
+        } else {
+            (other, self)
+        };
+        Intersection {""")]),
+    dict(name="c07-get_or_insert_with-no-assert", checks=["C07"], desc="get_or_insert_with stores a non-equivalent value",
+         edits=[("src/set.rs", '                assert!(value.equivalent(&new), "new value is not equivalent");', "                let _ = value.equivalent(&new);")]),
+    dict(name="c07-replace-keeps-old", checks=["C07"], desc="replace returns the new value and keeps the old one",
+         edits=[("src/set.rs", "            Ok(bucket) => Some(mem::replace(unsafe { &mut bucket.as_mut().0 }, value)),", "            Ok(bucket) => { let _ = bucket; Some(value) }")]),
 ]
